@@ -527,7 +527,15 @@ func MaxDeclared(k wm.Kind, b []byte) int64 {
 				return false
 			}
 			note(n)
-			if int32(n) < 0 || !wm.Kind(t).Valid() {
+			if int32(n) < 0 {
+				return false
+			}
+			if n == 0 {
+				// an empty container is accepted whatever its element type byte says (the
+				// readers do not look at it): the walk goes on behind it
+				return true
+			}
+			if !wm.Kind(t).Valid() {
 				return false
 			}
 			for i := uint32(0); i < n; i++ {
@@ -550,7 +558,13 @@ func MaxDeclared(k wm.Kind, b []byte) int64 {
 				return false
 			}
 			note(n)
-			if int32(n) < 0 || !wm.Kind(kt).Valid() || !wm.Kind(vt).Valid() {
+			if int32(n) < 0 {
+				return false
+			}
+			if n == 0 {
+				return true // see lists
+			}
+			if !wm.Kind(kt).Valid() || !wm.Kind(vt).Valid() {
 				return false
 			}
 			for i := uint32(0); i < n; i++ {
